@@ -1041,7 +1041,7 @@ def run(ctx, only=None):
         else:
             gen = tempfile.mkdtemp(prefix="verif-c15-gen-", dir="/tmp")
             try:
-                pairs = fixed_pairs() + random_pairs(ctx.rng.fork("pairs"), ctx.scale(3, 30))
+                pairs = fixed_pairs() + random_pairs(ctx.rng.fork("pairs"), ctx.scale(2, 30))
                 scs = []
                 for label, old, new, mode in pairs:
                     ob = old_bytes_of(loop, gen, old)
@@ -1058,7 +1058,7 @@ def run(ctx, only=None):
                         second_saves(ctx, loop, sc, res["states"], jobs, ctx.scale(3, 8))
                 except Exception as e:  # changed code must not crash the harness
                     ctx.disagree({"pair": sc["pair"]}, "harness step raised %s: %s" % (type(e).__name__, e), "n/a", where="run_scenario")
-            kind_pairs = ["grow", "shrink", "nofile->nonempty"] + (["unicode", "nonempty->emptylist", "random0", "random1"] if ctx.thorough else [])
+            kind_pairs = ["grow", "nofile->nonempty"] + (["shrink", "unicode", "nonempty->emptylist", "random0", "random1"] if ctx.thorough else [])
             for kind in PATH_KINDS[1:]:
                 for label in kind_pairs:
                     if label not in by_label:
